@@ -63,6 +63,14 @@ pub fn run(ctx: &'static Ctx) {
         same(ctx, "alt:scope-raw:lists", l.len() as u64, &T::ScopeRaw("\\_SB_.PCI0".into(), l.clone()), &T::Scope("\\_SB_.PCI0".into(), l.clone()), || format!("Scope with children {:?}", l));
         n.fetch_add(1, Ordering::Relaxed);
     });
+    // many children: Scope has no element-count field, so 256 and more children are as legal as 255
+    for k in [254usize, 255, 256, 257, 300, 1000] {
+        for x in [T::One, T::Int(0x1234, Carrier::U16)] {
+            let kids = vec![x.clone(); k];
+            same(ctx, "alt:scope-raw:child-count", k as u64, &T::ScopeRaw("\\_SB_".into(), kids.clone()), &T::Scope("\\_SB_".into(), kids), || format!("Scope with {} children", k));
+            n.fetch_add(1, Ordering::Relaxed);
+        }
+    }
     ctx.engine("E4.scope-raw", json!({"pairs": n.load(Ordering::Relaxed), "paths": paths, "body_sizes": "0..=4200 and around 2^20, plus every child list of length <=3 over the fillers"}));
 
     // ---- PackageBuilder vs Package
